@@ -258,8 +258,26 @@ def recheck_worker(wi, queue, resf):
         p = os.path.join(wt, mu['file'])
         orig = open(p).read()
         lines = orig.split('\n')
+        if mu['line'] >= len(lines) or lines[mu['line']].strip() != mu['before']:
+            # the file changed since the campaign (a later fix): find the line again, or skip
+            cands = [i for i, l in enumerate(lines) if l.strip() == mu['before']]
+            near = [i for i in cands if abs(i - mu['line']) <= 12]
+            if len(near) != 1:
+                with lock:
+                    resf.write(json.dumps({'n': mu['n'], 'file': mu['file'], 'line': mu['line'], 'op': mu['op'], 'before': mu['before'], 'status': 'skipped-file-changed'}) + '\n'); resf.flush()
+                continue
+            delta = near[0] - mu['line']
+            mu['line'] = near[0]
+            if mu['new'] is not None:
+                pass
         lines[mu['line']] = '' if mu['new'] is None else mu['new']
         open(p, 'w').write('\n'.join(lines))
+        rc0, _ = sh('go build ./...', wt)
+        if rc0 != 0:
+            open(p, 'w').write(orig)
+            with lock:
+                resf.write(json.dumps({'n': mu['n'], 'file': mu['file'], 'line': mu['line'], 'op': mu['op'], 'before': mu['before'], 'status': 'stillborn-now'}) + '\n'); resf.flush()
+            continue
         out = {'n': mu['n'], 'file': mu['file'], 'line': mu['line'], 'op': mu['op'], 'before': mu['before'], 'rechecked': {}, 'status': 'SURVIVOR-ALL'}
         for cid in wider(mu['file']):
             if cid in mu.get('checks_rc', {}):
